@@ -10,6 +10,7 @@ mod c11;
 mod c12;
 mod c14;
 mod c16;
+mod c17;
 mod c18;
 mod c19;
 mod c20;
@@ -37,6 +38,7 @@ fn prop_by_id(id: &str) -> Option<Box<dyn Prop>> {
         "C11" => Box::new(c11::C11),
         "C12" => Box::new(c12::C12),
         "C16" => Box::new(c16::C16),
+        "C17" => Box::new(c17::C17Prop),
         "C18" => Box::new(c18::C18),
         "C19" => Box::new(c19::C19),
         "C20" => Box::new(c20::C20Prop),
